@@ -193,9 +193,9 @@ class BodyMixin:
         if markup is None:
             # should never happen since we check content-type
             # when reading body
-            raise BodyParsingError()
+            self._raise(BodyParsingError(), RequestError)
         elif markup.error is not None:
-            raise markup.error
+            self._raise(markup.error, RequestError)
         listified = set()
         for item in FieldStorage.iter_items(body, markup.markups, self.config.max_memfile_size):
             if item.filename:
